@@ -31,7 +31,7 @@ LEVEL_TEXT = ("Held on every generated execution of the run: 5 methods x {script
               "Every recorded right-hand-side call was replayed against the literature tableau (stage times, stage states, step result, "
               "FSAL reuse, accepted steps below tolerance, landing on requested times); c, A, b, E were read off scripted executions and "
               "satisfy all rooted-tree order conditions up to the declared order; global errors stay below a calibrated multiple of the "
-              "requested tolerance. Only the generated inputs are decided (state size <= 24, |t| <= 12, Lipschitz constant x span <= 8).")
+              "requested tolerance. Only the generated inputs are decided (state size <= 24, |t| <= 12, Lipschitz constant x span <= 4).")
 LEVEL_NOTE = ("Trusts the literature tableaus transcribed in the module (cross-checked against scipy.integrate._ivp.rk at run time), "
               "torch.linalg.matrix_exp / elementary functions for the closed forms, and the norm convention ||err||_2 <= atol + rtol*max(||y0||_2,||y1||_2) "
               "for 'within the requested tolerances'. Accuracy bounds are calibrated (>= 100x the largest error seen), so a defect that changes "
@@ -44,7 +44,7 @@ MIN_NONTRIVIAL = {"quick": 1200, "thorough": 12000}
 ASSUMPTIONS = [
     "ts strictly monotone, 2 <= nt <= 9 (plus the directed degenerate grids: one point, repeated points), |t| <= 12, total span <= 10",
     "state size <= 24 (batched, matrix-shaped and tuple states), float64 (float32 only in the scripted tableau group)",
-    "families keep (Lipschitz constant) x (span) <= 8 and solutions O(1): linear systems with ||A||_2 <= 2, logistic, separable, Bernoulli y'=y^2 cos t, "
+    "families keep (Lipschitz constant) x (span) <= 4 and solutions O(1): linear systems with ||A||_2 <= 2, logistic, separable, Bernoulli y'=y^2 cos t, "
     "harmonic and damped oscillators, coupled linear tuple states",
     "adaptive tolerances: rk45 atol>=1e-12/rtol>=1e-10, rk23 atol>=1e-9/rtol>=1e-7 (attainable in float64 within the call budget)",
     "lockstep comparisons use 1e3*eps relative to the magnitude of the terms of each stage formula (largest seen on the unchanged tree: <= 4 eps)",
@@ -353,7 +353,6 @@ def replay_adaptive(method, log, ts, y0f, ytf, atol, rtol, obs, key, eps):
     if not obs.check(ok0, "first_call:%s" % key, "first call is not f(ts[0], y0): t=%r ts[0]=%r" % (t_first, tl[0])):
         return rp
     prev = None
-    it = 1
     pos = 1
     fail = None
     nlog = len(log)
@@ -416,6 +415,8 @@ def replay_adaptive(method, log, ts, y0f, ytf, atol, rtol, obs, key, eps):
         return rp
     prev.status = "accepted"
     # ---- accepted steps: error estimate within tolerance, monotone progress, landing on the requested times
+    ttol = 64 * eps * tmag
+    acc_list = [a for a in rp.attempts if a.status != "rejected"]
     for n, a in enumerate(rp.attempts):
         if a.status == "rejected":
             rp.rejected += 1
@@ -431,15 +432,31 @@ def replay_adaptive(method, log, ts, y0f, ytf, atol, rtol, obs, key, eps):
                     % (n, a.h, a.err, a.scale))
         if a.h < 0 and fail is None:
             fail = ("backward_step", "attempt %d steps against the direction of ts (h=%.3g)" % (n, sig * a.h))
-        if it < nt and a.tnew > tau[it] + 64 * eps * tmag and fail is None:
-            fail = ("overshoot", "accepted step ends at t=%r beyond the next requested time %r" % (sig * a.tnew, tl[it]))
-        while it < nt and abs(a.tnew - tau[it]) <= 64 * eps * tmag:
-            if not torch.equal(ytf[it], a.ynew) and fail is None:
-                d = _inf(ytf[it] - a.ynew)
-                fail = ("landing_value", "returned y[%d] differs (max %.3g) from the state of the step that landed on ts[%d]" % (it, d, it))
-            it += 1
-    if it < nt and fail is None:
-        fail = ("landing", "no accepted step ended on requested time ts[%d]=%r (last step ended at %r)" % (it, tl[it], sig * rp.attempts[-1].tnew))
+    # landing: the value returned for ts[i] is the state after the LAST accepted step that ends on ts[i] (a step that ends one
+    # rounding error short of ts[i] is followed by a tiny or zero-length step that 'achieves' it), and no accepted step may
+    # pass a requested time that has not been landed on
+    k = 0
+    for it in range(1, nt):
+        while k < len(acc_list) and acc_list[k].tnew < tau[it] - ttol:
+            k += 1
+        if k >= len(acc_list) or acc_list[k].tnew > tau[it] + ttol:
+            if fail is None:
+                if k < len(acc_list):
+                    fail = ("overshoot", "an accepted step ends at t=%r beyond the requested time ts[%d]=%r without landing on it" % (
+                        sig * acc_list[k].tnew, it, tl[it]))
+                else:
+                    fail = ("landing", "no accepted step ended on requested time ts[%d]=%r (last step ended at %r)" % (
+                        it, tl[it], sig * rp.attempts[-1].tnew))
+            break
+        while k + 1 < len(acc_list) and abs(acc_list[k + 1].tnew - tau[it]) <= ttol:
+            k += 1
+        a = acc_list[k]
+        if not torch.equal(ytf[it], a.ynew) and fail is None:
+            fail = ("landing_value", "returned y[%d] differs (max %.3g) from the state of the last step that ended on ts[%d]" % (
+                it, _inf(ytf[it] - a.ynew), it))
+    else:
+        if k != len(acc_list) - 1 and fail is None:
+            fail = ("extra_steps", "%d accepted steps after the one that landed on the last requested time" % (len(acc_list) - 1 - k))
     if fail is not None:
         obs.check(False, "%s:%s" % (fail[0], key), fail[1])
     else:
@@ -529,6 +546,9 @@ def _track(obs, name, value):
 
 
 # ------------------------------------------------------------------------------------------------ ODE families with closed forms
+LT_MAX = 4.0     # (Lipschitz bound) x (span of ts) never exceeds this
+
+
 class Family:
     """fcn(t, y, *params) (torch ops only), y0, params, exact(t_float) -> flattened exact state, L (Lipschitz bound on the region)"""
     name = ""
@@ -540,7 +560,7 @@ def make_family(name, rng, tgen, t0, span, layout="tensor", big=False):
     f.name = name
     f.params = ()
     dt = torch.float64
-    lmax = min(2.0, 8.0 / max(span, 1e-9))
+    lmax = min(2.0, LT_MAX / max(span, 1e-9))
 
     def rnd(*shape):
         return torch.rand(tuple(shape), dtype=dt, generator=tgen)
@@ -562,6 +582,7 @@ def make_family(name, rng, tgen, t0, span, layout="tensor", big=False):
         A = A / nrm[..., None, None] * L
         if rng.random() < 0.5:      # dissipative variant
             A = A - L * torch.eye(n, dtype=dt) * 0.5
+            A = A / torch.clamp(torch.linalg.matrix_norm(A, ord=2) / L, min=1.0)[..., None, None]
         y0 = rndn(*batch, n)
         as_param = rng.random() < 0.5
         f.L = float(torch.linalg.matrix_norm(A, ord=2).max())
@@ -1137,7 +1158,7 @@ def _errors(fam, pts, ytf):
 # observed-order margins: smallest local order seen on the unchanged tree over 2000 draws per family: p+1-0.10 (rk23, rk4, rk38),
 # p+1-0.01 (euler), p+1-0.74 (rk45: Dormand-Prince minimises the principal error term, so the next term shows at usable step sizes)
 ORDER_MARGIN = {"euler": 0.3, "rk4": 0.4, "rk38": 0.4, "rk23": 0.4, "rk45": 1.0}
-GLOBAL_ORDER_MARGIN = 0.5
+GLOBAL_ORDER_MARGIN = 0.9
 
 
 def run_order(desc, obs):
@@ -1188,8 +1209,8 @@ def run_order(desc, obs):
     obs.nontrivial = True
 
 
-K_ACC = {"rk23": 1.0, "rk45": 1.0}     # calibrated below (see ASSUMPTIONS); placeholder values are replaced after calibration
-K_FIX = {"euler": 1.0, "rk4": 1.0, "rk38": 1.0}
+K_ACC = {"rk23": 300.0, "rk45": 300.0}     # calibrated below (see ASSUMPTIONS); placeholder values are replaced after calibration
+K_FIX = {"euler": 40.0, "rk4": 1.0, "rk38": 1.0}
 
 
 def acc_bound(m, tolname, ymax, L, T, nacc):
@@ -1237,8 +1258,10 @@ def run_accuracy(desc, obs):
             obs.count("tolerance_pairs")
             if max(errs2) < max(errs):
                 obs.count("tolerance_pairs_improved")
-            obs.check(max(errs2) <= max(max(errs), K_ACC[m] * (base2 + floor2) / 100), "tolerance_response:%s" % m,
-                      "tightening the tolerances 100x increased the error from %.3e to %.3e" % (max(errs), max(errs2)))
+            _track(obs, "acc_ratio", max(errs2) / (base2 + floor2))
+            obs.check(max(errs2) <= K_ACC[m] * (base2 + floor2), "accuracy:%s:tightened" % m,
+                      "with 100x tighter tolerances than '%s' the global error is %.3e (was %.3e), bound %.3e" % (
+                          desc["tol"], max(errs2), max(errs), K_ACC[m] * (base2 + floor2)))
     obs.nontrivial = ymax > 0 and rp.accepted >= len(pts) - 1
 
 
@@ -1285,7 +1308,10 @@ def run_fixedacc(desc, obs):
               "global error %.3e exceeds %.3g x |y|(L h)^%d LT e^LT = %.3e (family %s, h=%.3g)" % (max(e1), K_FIX[m], p, K_FIX[m] * bound, famname, hmax))
     floor = 1e-12 * max(ymax, 1e-3)
     obs.note(err_h=max(e1), err_h2=max(e2))
-    if max(e2) > floor and max(e1) > 0:
+    if famname in ("separable", "bernoulli"):
+        # non-autonomous with sign changes of the coefficient: errors of successive steps cancel irregularly, no clean global order
+        obs.count("global_order_not_applicable")
+    elif max(e2) > floor and max(e1) > 0:
         order = math.log2(max(e1) / max(e2))
         obs.count("order_tests")
         _track(obs, "min_global_order_excess", -(order - p))
@@ -1425,40 +1451,47 @@ def run_meta(desc, obs):
 
 
 def run_degenerate(desc, obs):
-    """grids at the edge of 'monotone': a single time point; a repeated time (zero-length interval) first / inside / last"""
+    """grids at the edge of 'monotone': a single time point; a repeated time (zero-length interval) first / inside / last.
+    Oracle: y[0] is y0, a repeated time repeats the value, and the values at the distinct times are those of the grid without
+    the repetition (bitwise for the unchanged tree; 1e-12 relative is required)"""
     m, var = desc["method"], desc["var"]
     rng = random.Random(desc["seed"])
     sgn = 1.0 if desc["dir"] == "inc" else -1.0
     t0 = rng.uniform(-1, 1)
     y0 = torch.randn(3, dtype=torch.float64)
     lam = torch.tensor([0.5, -1.0, 0.2], dtype=torch.float64)
+    base = [t0, t0 + sgn * 0.5, t0 + sgn * 1.0]
     if var == "one_point":
-        pts = [t0]
+        pts, keep = [t0], [0]
     elif var == "repeat_first":
-        pts = [t0, t0, t0 + sgn * 0.5, t0 + sgn * 1.0]
+        pts, keep = [t0, t0, base[1], base[2]], [0, 2, 3]
     elif var == "repeat_inner":
-        pts = [t0, t0 + sgn * 0.5, t0 + sgn * 0.5, t0 + sgn * 1.0]
+        pts, keep = [t0, base[1], base[1], base[2]], [0, 1, 3]
     else:
-        pts = [t0, t0 + sgn * 0.5, t0 + sgn * 1.0, t0 + sgn * 1.0]
+        pts, keep = [t0, base[1], base[2], base[2]], [0, 1, 2]
     ts = torch.tensor(pts, dtype=torch.float64)
     key = "%s:%s" % (m, var)
 
     def rule(idx, t, y, *p):
-        return lam * y
-    spy, yt = run_solver(obs, key, rule, ts, y0, m, budget=20000)
+        return lam * y * torch.cos(t)
+    spy, yt = run_solver(obs, key, rule, ts, y0, m, budget=4000)
     obs.nontrivial = True
     obs.count("degenerate_grids")
     if yt is None:
         return
     if not basic_checks(obs, key, yt, ts, y0):
         return
-    tol = {"euler": 0.2, "rk4": 1e-3, "rk38": 1e-3, "rk23": 1e-3, "rk45": 1e-4}[m]
-    for i, t in enumerate(pts):
-        ex = y0 * torch.exp(lam * (t - t0))
-        obs.check(_inf(yt[i] - ex) <= tol, "degenerate_value:%s" % key, "y[%d] differs from the solution by %.3g" % (i, _inf(yt[i] - ex)))
     for i in range(1, len(pts)):
         if pts[i] == pts[i - 1]:
             obs.check(torch.equal(yt[i], yt[i - 1]), "repeated_time:%s" % key, "y at a repeated time point differs from the previous value")
+    if var != "one_point":
+        spy2, yt2 = run_solver(obs, key + ":distinct", rule, torch.tensor(base, dtype=torch.float64), y0, m, budget=4000)
+        if yt2 is None:
+            return
+        d = _inf(yt[keep] - yt2)
+        obs.check(d <= 1e-12 * max(_inf(yt2), 1e-3), "degenerate_value:%s" % key,
+                  "values at the distinct times differ by %.3g from the solution on the grid without the repeated time" % d)
+        obs.count("metamorphic_compared")
 
 
 def run_case(desc):
